@@ -249,6 +249,10 @@ def coq_eval(header, case_terms, case_type, check_fn, shard=250, timeout=400, jo
 
     def one(fn):
         p = run(["coqc", "-Q", COQ, "WTF", "-w", "-all", fn], timeout=timeout, cwd=d)
+        if p.returncode == 124:
+            # the evaluation is total (vm_compute of structurally recursive checkers): a time-out means a loaded machine,
+            # not a verdict - evaluate the shard once more with a budget that a loaded machine meets too
+            p = run(["coqc", "-Q", COQ, "WTF", "-w", "-all", fn], timeout=timeout * 6, cwd=d)
         return fn, p
 
     results = []
